@@ -193,9 +193,22 @@ EXPORT errno_t _wcstombs_s_chk(size_t *restrict retvalp, char *restrict dest,
 
     /* l is the strlen, excluding NULL */
     /* the C library may store up to len bytes: never more than dmax */
-    if (dest && len > dmax)
-        len = dmax;
-    l = *retvalp = wcstombs(dest, src, len);
+    if (dest && len > dmax) {
+        /* cut at dmax in front of a character that len would have admitted:
+           that is "no room", not a shorter result */
+        const wchar_t *sp = src;
+        mbstate_t st;
+        memset(&st, 0, sizeof(st));
+        l = *retvalp = wcsrtombs(dest, &sp, dmax, &st);
+        if (l < dmax && sp != NULL) {
+            char tmp[MB_LEN_MAX];
+            size_t c = wcrtomb(tmp, *sp, &st);
+            if (c != (size_t)-1 && l + c <= len)
+                l = dmax;
+        }
+    } else {
+        l = *retvalp = wcstombs(dest, src, len);
+    }
 
     if (likely(l > 0 && (rsize_t)l < dmax)) {
         if (dest) {
